@@ -9,7 +9,8 @@
     P cchain <op>* @@ <obs> ## …  → the property monitor on the recorded observation
 
   op tokens:  R<ids>  router.AddMiddleware(ids...)        H<h>:<ids>  handler h .AddMiddleware(ids...)
-              A<h>p | A<h>n  AddHandler / AddNoPublisherHandler of handler number h, named "h<h>", or
+              A<h>p | A<h>n  AddHandler / AddNoPublisherHandler of handler number h, named "h<h>" (A<h>d: its function returns
+              two distinct messages with the same UUID; A<h>e: three distinct messages with empty UUIDs), or
               A<h>p=<nameHex> with an explicit name (hex of its UTF-8 bytes, `-` = the empty name)
               A<h>p@<g> (also with =<name>): the handler gets the application-decorated subscriber object number g – one
               MessageTransformSubscriberDecorator-wrapped subscriber built by the application, shared by all handlers with that g
@@ -17,7 +18,9 @@
               G<item>+<item>…  AddPlugin: a RouterPlugin that, when Run executes it, registers item ∈ R<ids> | P<ids> | S<ids>
               P<ids>! / S<ids>!  as P / S, but the last decorator of the call returns an error the first time it is applied
                                (RunHandlers fails and is called again until it succeeds)
-              T<h>             handler h .Stop(), wait for Stopped(): the handler leaves the router (its name is not reused)
+              T<h>             handler h .Stop(), wait for Stopped(): the handler leaves the router; a handler added later may
+                               use its name (middlewares are registered per NAME: it then also runs what was registered
+                               under that name before). T<h> on a handler that has already stopped does nothing.
               X                the application edits every slice it has passed so far in a `xs...` call (all registrations
                                are made from caller-owned slices with spare capacity): overwrites every element with a
                                foreign recorder (ids >= 9000), appends one on the spare capacity, hands the result to a
@@ -85,7 +88,7 @@ def hmwOf (names : List (Nat × String)) (cs : List Char) : Option Op :=
   | _ => none
 
 /-- one token; `names` = handler number ↦ name, filled by the A tokens -/
-def opOf (names : List (Nat × String)) (tok : String) : Option (DOp × List (Nat × String)) :=
+def opOf1 (gone : List Nat) (names : List (Nat × String)) (tok : String) : Option (DOp × List (Nat × String)) :=
   if tok == "RUN" then some (.seq .run, names) else
   if tok == "X" then some (.seq .callerEdits, names) else
   -- `P<ids>!` / `S<ids>!`: the (last) decorator of the call returns an error the first time it is applied; RunHandlers
@@ -99,7 +102,8 @@ def opOf (names : List (Nat × String)) (tok : String) : Option (DOp × List (Na
   | 'T' :: rest => do
     let h ← natOf rest
     let (_, name) ← names.find? (·.1 == h)
-    pure (.seq (.stopHandler name), names)
+    -- Stop() through the handle of a handler that has already stopped does nothing (whoever holds its name now)
+    if gone.contains h then pure (.seq .stopAgain, names) else pure (.seq (.stopHandler name), names)
   | 'G' :: rest => ((splitOnChar '+' rest).mapM popOf).map fun ps => (.seq (.plugin ps), names)
   | 'C' :: rest =>
     ((splitOnChar '|' rest).mapM fun g => (splitOnChar '+' g).mapM (hmwOf names)).map fun gs => (.conc gs, names)
@@ -113,7 +117,11 @@ def opOf (names : List (Nat × String)) (tok : String) : Option (DOp × List (Na
       | _ => (spec, none)
     match spec.reverse with
     | k :: h => do
-      let hasPub ← if k == 'p' then some true else if k == 'n' then some false else none
+      -- p: returns one message; n: AddNoPublisherHandler; d: returns two distinct messages with the SAME UUID;
+      -- e: returns three distinct messages with EMPTY UUIDs
+      -- z: AddHandler with a nil publisher and a function that returns nothing (not decorated, nothing published)
+      let hasPub ← if k == 'p' then some 1 else if k == 'n' || k == 'z' then some 0 else if k == 'd' then some 2
+        else if k == 'e' then some 3 else none
       let h ← natOf h.reverse
       let name ← match name? with | some n => nameOfTok n | none => some (hname h)
       let app ← match app? with | some g => (natOf g).map some | none => some none
@@ -123,9 +131,12 @@ def opOf (names : List (Nat × String)) (tok : String) : Option (DOp × List (Na
   | _ => none
 
 def opsOf (toks : List String) : Option (List DOp × List (Nat × String)) :=
-  toks.foldlM (fun (acc : List DOp × List (Nat × String)) t => do
-    let (o, names) ← opOf acc.2 t
-    pure (acc.1 ++ [o], names)) ([], [])
+  (toks.foldlM (fun (acc : List DOp × List (Nat × String) × List Nat) t => do
+    let (o, names) ← opOf1 acc.2.2 acc.2.1 t
+    let gone := match o, t.toList with
+      | .seq (.stopHandler _), 'T' :: rest => match natOf rest with | some h => acc.2.2 ++ [h] | none => acc.2.2
+      | _, _ => acc.2.2
+    pure (acc.1 ++ [o], names, gone)) ([], [], [])).map fun (r : List DOp × List (Nat × String) × List Nat) => (r.1, r.2.1)
 
 /-- all orders in which the lock can serialise the goroutines' calls (each goroutine's own order kept) -/
 def interleave : Nat → List (List Op) → List (List Op)
@@ -144,10 +155,26 @@ def linearise : List DOp → List (List Op)
     let tails := linearise r
     (interleave (gs.flatten.length + 1) gs).flatMap fun il => tails.map (il ++ ·)
 
+/-- for every `run` of a (linear) program: which handler NUMBER holds each name at that moment (a name can be used again
+    by a new handler once its holder has stopped; the k-th AddHandler of the program is handler number `names[k].1`) -/
+def keyMaps (names : List (Nat × String)) (ops : List Op) : List (List (String × Nat)) := Id.run do
+  let mut cur : List (String × Nat) := []
+  let mut k := 0
+  let mut out : List (List (String × Nat)) := []
+  for o in ops do
+    match o with
+    | .addHandler n _ _ =>
+      let num := match names[k]? with | some (h, _) => h | none => 0
+      cur := cur.filter (·.1 != n) ++ [(n, num)]
+      k := k + 1
+    | .run => out := out ++ [cur]
+    | _ => pure ()
+  return out
+
 /-- observation key of a handler: `h<number>` -/
-def keyOf (names : List (Nat × String)) (name : String) : String :=
-  match names.find? (·.2 == name) with
-  | some (n, _) => "h" ++ toString n
+def keyOf (km : List (String × Nat)) (name : String) : String :=
+  match km.find? (·.1 == name) with
+  | some (_, n) => "h" ++ toString n
   | none => "h?"
 
 def evStr : Ev → String
@@ -159,15 +186,15 @@ def evStr : Ev → String
   | .pub i => "p" ++ toString i
   | .published => "P"
 
-def blockStr (names : List (Nat × String)) (b : List (String × List Ev)) : String :=
+def blockStr (km : List (String × Nat)) (b : List (String × List Ev)) : String :=
   if b.isEmpty then "-" else
-  ";".intercalate (b.map fun (n, t) => keyOf names n ++ "=" ++ ".".intercalate (t.map evStr))
+  ";".intercalate (b.map fun (n, t) => keyOf km n ++ "=" ++ ".".intercalate (t.map evStr))
 
-def obsStr (names : List (Nat × String)) (obs : List (List (String × List Ev))) : String :=
-  if obs.isEmpty then "none" else " ".intercalate (obs.map (blockStr names))
+def obsStr (kms : List (List (String × Nat))) (obs : List (List (String × List Ev))) : String :=
+  if obs.isEmpty then "none" else " ".intercalate ((obs.zip kms).map fun (b, km) => blockStr km b)
 
 def runModel (names : List (Nat × String)) (ops : List Op) : Option String :=
-  (exec {} ops).map fun s => obsStr names s.obs
+  (exec {} ops).map fun s => obsStr (keyMaps names ops) s.obs
 
 def model (toks : List String) : String :=
   match opsOf toks with
@@ -225,7 +252,7 @@ def isSubseq : List Nat → List Nat → Bool
     callers free – then `after` in order;  `foreign`: ids registered for other handlers (anywhere in the program);
     `sd`/`pd`: decorator ids added before it started, in the order added; `app`: the application's own subscriber
     transform, if the handler was given a pre-decorated subscriber. -/
-def judgeTrace (before : List Nat) (groups : List (List Nat)) (after foreign sd pd : List Nat) (hasPub : Bool)
+def judgeTrace (before : List Nat) (groups : List (List Nat)) (after foreign sd pd : List Nat) (outs : Nat)
     (app : Option Nat) (t : List Tok) : String :=
   if t.contains .foreignCtx then "violated:foreign_context" else
   let as := t.takeWhile (fun x => match x with | .a _ => true | _ => false)
@@ -254,9 +281,10 @@ def judgeTrace (before : List Nat) (groups : List (List Nat)) (after foreign sd 
     else if lIds != eIds.reverse then "violated:nesting_order"
     else if aIds != app.toList then "violated:sub_decorator_order"
     else if sIds != sd then "violated:sub_decorator_order"
-    else if hasPub then
-      (if r5 != [.P] then "violated:shape" else if pIds != pd then "violated:pub_decorator_order" else "ok")
-    else (if !r5.isEmpty || !pIds.isEmpty then "violated:shape" else "ok")
+    -- every publisher decorator, in the order added, acts on each of the `outs` outgoing messages; then the publisher gets them
+    else if r5 != List.replicate outs Tok.P then "violated:shape"
+    else if pIds != pd.flatMap (fun i => List.replicate outs i) then "violated:pub_decorator_order"
+    else "ok"
   | _ => "violated:shape"
 
 def parseEntry (cs : List Char) : Option (String × List Tok) :=
@@ -271,13 +299,6 @@ def parseBlock (b : String) : Option (List (String × List Tok)) :=
 
 def monitor (names : List (Nat × String)) (dops : List DOp) (blocks : List String) : String := Id.run do
   let ops := dops.flatMap DOp.flat
-  -- well-formedness of the program (same conditions as the API: a handler exists before it gets middleware, names unique)
-  let mut known : List String := []
-  for o in ops do
-    match o with
-    | .addHandler h _ _ => if known.contains h then return "bad-op" else known := known ++ [h]
-    | .handlerMw h _ => if !known.contains h then return "bad-op"
-    | _ => pure ()
   let nRuns := (ops.filter (· == .run)).length
   if blocks.length != nRuns then return "violated:shape"
   let allForeign (h : String) : List Nat :=
@@ -286,29 +307,39 @@ def monitor (names : List (Nat × String)) (dops : List DOp) (blocks : List Stri
   let mut seen : List DOp := []
   let mut pending : List POp := []      -- what the plugins added so far will register when Run executes them
   let mut ran := false
-  let mut started : List (String × Bool × Option Nat × List DOp) := []   -- handler, hasPub, app, what preceded its start
-  let mut stopped : List String := []
+  -- the handlers in the router: number, name, messages returned, app, what preceded its start (none: not started yet)
+  let mut live : List (Nat × String × Nat × Option Nat × Option (List DOp)) := []
+  let mut k := 0
   let mut rest := blocks
   for d in dops do
     match d with
     | .seq (.plugin ps) => pending := pending ++ ps
+    | .seq (.addHandler h n a) =>
+      -- names are unique among the handlers in the router (a stopped handler has left it)
+      if live.any (·.2.1 == h) then return "bad-op"
+      let num := match names[k]? with | some (x, _) => x | none => 0
+      live := live ++ [(num, h, n, a, none)]
+      k := k + 1
+    | .seq (.handlerMw h _) => if !(live.any (·.2.1 == h)) then return "bad-op"
+    | .conc gs =>
+      for g in gs do
+        for o in g do
+          match o with
+          | .handlerMw h _ => if !(live.any (·.2.1 == h)) then return "bad-op"
+          | _ => pure ()
     | .seq (.stopHandler h) =>
       -- only a running handler can be stopped; from now on it gets no messages and appears in no block
-      if !(started.any (·.1 == h)) then return "bad-op"
-      started := started.filter (·.1 != h)
-      stopped := stopped ++ [h]
+      if !(live.any fun x => x.2.1 == h && x.2.2.2.2.isSome) then return "bad-op"
+      live := live.filter (·.2.1 != h)
     | .seq .run =>
       -- Run executes the plugins first (once; RunHandlers on the running router does not)
       if !ran then
         ran := true
         seen := seen ++ pending.map fun q => DOp.seq (match q with
           | .routerMw ids => Op.routerMw ids | .pubDec ids => Op.pubDec ids | .subDec ids => Op.subDec ids)
-      -- every handler added so far and not yet started starts now, after all of `seen`
-      for x in seen do
-        match x with
-        | .seq (.addHandler h p a) =>
-          if !(started.any (·.1 == h)) && !stopped.contains h then started := started ++ [(h, p, a, seen)]
-        | _ => pure ()
+      -- every handler in the router that is not started yet starts now, after all of `seen`
+      let snapshot := seen
+      live := live.map fun x => match x.2.2.2.2 with | some _ => x | none => (x.1, x.2.1, x.2.2.1, x.2.2.2.1, some snapshot)
       match rest with
       | [] => return "violated:shape"
       | b :: more =>
@@ -316,11 +347,10 @@ def monitor (names : List (Nat × String)) (dops : List DOp) (blocks : List Stri
         match parseBlock b with
         | none => return "violated:shape"
         | some entries =>
-          if entries.map (·.1) != started.map (fun x => keyOf names x.1) then return "violated:shape"
-          for (k, t) in entries do
-            match started.find? (fun x => keyOf names x.1 == k) with
-            | none => return "violated:shape"
-            | some (h, hasPub, app, pre) =>
+          if entries.map (·.1) != live.map (fun x => "h" ++ toString x.1) then return "violated:shape"
+          for (key, t) in entries do
+            match live.find? (fun x => "h" ++ toString x.1 == key) with
+            | some (_, h, outs, app, some pre) =>
               let idsFor (o : Op) : List Nat := match o with
                 | .routerMw ids => ids
                 | .handlerMw g ids => if g == h then ids else []
@@ -332,8 +362,9 @@ def monitor (names : List (Nat × String)) (dops : List DOp) (blocks : List Stri
               let flatPre := pre.flatMap DOp.flat
               let sd := flatPre.foldl (fun acc x => match x with | .subDec ids => acc ++ ids | _ => acc) []
               let pd := flatPre.foldl (fun acc x => match x with | .pubDec ids => acc ++ ids | _ => acc) []
-              let v := judgeTrace before groups after (allForeign h) sd pd hasPub app t
+              let v := judgeTrace before groups after (allForeign h) sd pd outs app t
               if v != "ok" then return v
+            | _ => return "violated:shape"
     | _ => pure ()
     match d with
     | .seq (.plugin _) => pure ()
